@@ -107,6 +107,8 @@ def jobs(tier, seed):
             out.append(_j(game, C.fl(stacks, game=game), opts={'discards': ('none', 'two', 'all')},
                           dev_bound=2 if not thorough else 3))
     for j in out:
+        if j['family'] in ('NT', 'NT-cash', 'hilo-boards', 'two-street-straddle', 'automation', 'rake', 'FixedLimitRazz', 'PO-2boards'):
+            j.setdefault('opts', {})['show'] = (None, True, False)   # mucking is a legal operation too
         j.setdefault('state_cap', 400000 if thorough else 60000)
         j.setdefault('time_cap', 600 if thorough else 40)
     return out
